@@ -39,7 +39,7 @@ PLAN = {
     "quick": {"shards": 8, "cases": 1300, "timeout_s": 900, "min_evaluations": 10000,
               "min_counters": {"lookups_compared": 40000, "registrations_accepted": 20000, "registrations_rejected": 2500,
                                "content_paths_checked": 12500, "grep_children_observed": 4000}},
-    "thorough": {"shards": 16, "cases": 5000, "timeout_s": 3300, "min_evaluations": 70000,
+    "thorough": {"shards": 16, "cases": 14000, "timeout_s": 3300, "min_evaluations": 70000,
                  "min_counters": {"lookups_compared": 300000}},
 }
 _UID = itertools.count()
